@@ -4,7 +4,7 @@
    AtLeast.assume, flatten, evaluate_propositions, evaluate).  Spec side: Sem.eval (the
    arithmetic truth function) and Sem.eval_d (same, but a node whose own variable is fixed by the
    interpretation or by its declared bounds takes that fixed value). *)
-Require Import Puan.Base Puan.Plog Puan.Sem Puan.AssumeFacts Puan.Errors Puan.ErrorsSpec Puan.Validated.
+Require Import Puan.Base Puan.Plog Puan.Sem Puan.AssumeFacts Puan.Errors Puan.ErrorsSpec Puan.Validated Puan.PresentFacts.
 Open Scope string_scope.
 
 (* Every entry (id, (lo,hi)) of the dictionary returned for a total interpretation is the
@@ -16,6 +16,16 @@ Theorem C03_nodes :
     exists p', In p' (nodes p) /\ id_of p' = i /\ lo = eval_d d env p' /\ hi = eval_d d env p'.
 Proof. exact evalprops_exact. Qed.
 Print Assumptions C03_nodes.
+
+(* Completeness: the dictionary has an entry for the model and for each of its sub-propositions and
+   leaves that the interpretation leaves visible (PresentFacts.visible_ids: nothing below a compound
+   whose own variable is fixed; a sub-proposition that the interpretation names is reported itself
+   but hides its sub-tree, because it is replaced by its bare variable). *)
+Theorem C03_complete :
+  forall (d : interp) (p : prop), total d p ->
+    forall i, In i (visible_ids d p) -> exists b, In (i, b) (evaluate_propositions d p).
+Proof. exact evalprops_complete. Qed.
+Print Assumptions C03_complete.
 
 (* evaluate() is the top entry of evaluate_propositions(); on a model whose ids have single
    definitions it is the top node's value. *)
@@ -59,6 +69,6 @@ Definition c03_env : ident -> Z := fun i => if String.eqb i "x" then -1 else 1.
 Example C03_nonvacuous :
   ok_signs c03_m = true /\ agrees c03_d c03_env c03_m /\ total c03_d c03_m /\ refines c03_d c03_env c03_m /\
   evaluate_propositions c03_d c03_m = [("A", (1, 1)); ("B", (1, 1)); ("x", (-1, -1)); ("y", (1, 1)); ("z", (1, 1))] /\
-  eval c03_env c03_m = 1 /\ errors2 c03_m = [].
-Proof. split; [|split; [|split; [|split; [|split; [|split]]]]]; try (vm_compute; reflexivity); cbn; repeat split; try lia; try (right; lia); try discriminate. Qed.
+  eval c03_env c03_m = 1 /\ errors2 c03_m = [] /\ visible_ids c03_d c03_m = ["A"; "B"; "x"; "y"; "z"].
+Proof. split; [|split; [|split; [|split; [|split; [|split; [|split]]]]]]; try (vm_compute; reflexivity); cbn; repeat split; try lia; try (right; lia); try discriminate. Qed.
 Print Assumptions C03_nonvacuous.
